@@ -78,10 +78,15 @@ def norm_comps(path):
     return [x for x in path.split(b'/') if x not in (b'', b'.')]
 
 def strip_qf(target):
+    """RFC 3986: the fragment starts at the first '#', the query at the first '?' before it"""
     t = target if isinstance(target, bytes) else target.encode('utf-8', 'surrogateescape')
-    for sep in (b'#', b'?'):
-        if sep in t: t = t[:t.index(sep)]
+    if b'#' in t: t = t[:t.index(b'#')]
+    if b'?' in t: t = t[:t.index(b'?')]
     return t
+
+def fragment_has_qmark(target):
+    t = target if isinstance(target, bytes) else target.encode('utf-8', 'surrogateescape')
+    return b'#' in t and b'?' in t[t.index(b'#'):]
 
 def spec_lookup(tree, target):
     """the documented lookup on the tree under the served root: ('hit', relpath, content) | ('miss',) | ('unspecified', why)"""
@@ -108,10 +113,10 @@ def spec_lookup(tree, target):
         idx = (rel + b'/' if rel else b'') + b'index.html'
         if rel == b'': return ('unspecified', 'root (built-in index controller)')
         if idx in files: return ('hit', idx, files[idx])
-        if rel + b'.html' in files and not p.endswith(b'/'): return ('unspecified', 'directory without index but sibling .html')
+        if rel + b'.html' in files and not p.endswith(b'/'): return ('hit', rel + b'.html', files[rel + b'.html'], 'dir-sibling-html')
         return ('miss',)
-    if not p.endswith(b'/') and rel + b'.html' in files and not rel.endswith(b'.html'):
-        return ('hit', rel + b'.html', files[rel + b'.html'])
+    if not p.endswith(b'/') and rel + b'.html' in files:
+        return ('hit', rel + b'.html', files[rel + b'.html']) + (('html-html',) if rel.endswith(b'.html') else ())
     if any(rel.startswith(f + b'/') for f in files): return ('unspecified', 'path through a file')
     return ('miss',)
 
